@@ -601,47 +601,52 @@ func boxStr(x, y, w, h float64) string {
 	return ratOf(x) + "," + ratOf(y) + "," + ratOf(w) + "," + ratOf(h)
 }
 
+// opElementTree: which reading-order paragraphs buildElementTree does not emit
+// as they are (dropped or reduced), as a function of the fragment ids of the
+// headings, of the lists and of the paragraphs (coverage is decided by fragment
+// identity since the repair of the element tree).
 func opElementTree(c *hx.Ctx, frs []text.TextFragment, w, h float64) {
 	ar := layout.NewAnalyzer().Analyze(cp(frs), w, h)
 	if ar.Paragraphs == nil {
 		return
 	}
 	var hb, lb, pb []string
-	finite := true
-	chk := func(v ...float64) {
-		for _, x := range v {
-			if math.IsNaN(x) || math.IsInf(x, 0) {
-				finite = false
-			}
+	ok := true
+	add := func(dst *[]string, fs []text.TextFragment) {
+		ids := dotIDs(fs)
+		if ids == "" {
+			ok = false
 		}
+		*dst = append(*dst, ids)
 	}
 	if ar.Headings != nil {
 		for _, x := range ar.Headings.Headings {
-			hb = append(hb, boxStr(x.BBox.X, x.BBox.Y, x.BBox.Width, x.BBox.Height))
-			chk(x.BBox.X, x.BBox.Y, x.BBox.Width, x.BBox.Height)
+			add(&hb, elemLineFrags(x.Lines))
 		}
 	}
 	if ar.Lists != nil {
-		for _, x := range ar.Lists.Lists {
-			lb = append(lb, boxStr(x.BBox.X, x.BBox.Y, x.BBox.Width, x.BBox.Height))
-			chk(x.BBox.X, x.BBox.Y, x.BBox.Width, x.BBox.Height)
+		for i := range ar.Lists.Lists {
+			var fs []text.TextFragment
+			for _, it := range ar.Lists.Lists[i].GetAllItems() {
+				fs = append(fs, elemLineFrags(it.Lines)...)
+			}
+			add(&lb, fs)
 		}
 	}
-	var consumed []int
+	var changed []int
 	for i, p := range ar.Paragraphs.Paragraphs {
-		pb = append(pb, boxStr(p.BBox.X, p.BBox.Y, p.BBox.Width, p.BBox.Height))
-		chk(p.BBox.X, p.BBox.Y, p.BBox.Width, p.BBox.Height)
+		add(&pb, elemLineFrags(p.Lines))
 		emitted := false
 		for _, e := range ar.Elements {
-			if e.Type == model.ElementTypeParagraph && e.BBox == p.BBox && e.Text == p.Text {
+			if e.Type == model.ElementTypeParagraph && e.BBox == p.BBox && e.Text == p.Text && len(elemLineFrags(e.Lines)) == len(elemLineFrags(p.Lines)) {
 				emitted = true
 			}
 		}
 		if !emitted {
-			consumed = append(consumed, i)
+			changed = append(changed, i)
 		}
 	}
-	if !finite {
+	if !ok {
 		return
 	}
 	j := func(xs []string) string {
@@ -650,10 +655,10 @@ func opElementTree(c *hx.Ctx, frs []text.TextFragment, w, h float64) {
 		}
 		return strings.Join(xs, "|")
 	}
-	if len(consumed) > 0 {
-		c.Count("paragraphs-suppressed")
+	if len(changed) > 0 {
+		c.Count("paragraphs-reduced-or-dropped")
 	}
-	c.Op("c09.etree "+j(hb)+" "+j(lb)+" "+j(pb), idList(consumed))
+	c.Op("c09.etree "+j(hb)+" "+j(lb)+" "+j(pb), idList(changed))
 }
 
 // ---- text assembly ----------------------------------------------------------------------
